@@ -84,6 +84,8 @@ def build_jobs(work, quick, rng):
     add("restart", 3, {"cfile": cfile, "folder": os.path.join(work, "rs%d" % len(jobs)), "plot": False, "draw": 0})
     add("restart", 2, {"cfile": cfile, "folder": os.path.join(work, "rs%d" % len(jobs)), "plot": False, "draw": 1})
     add("restart", 4, {"cfile": cfile, "folder": os.path.join(work, "rs%d" % len(jobs)), "plot": True, "draw": 2})
+    add("restart", 3, {"cfile": cfile, "folder": os.path.join(work, "rs%d" % len(jobs)), "plot": True, "draw": 0, "saved": False})
+    add("restart", 4, {"cfile": cfile, "folder": os.path.join(work, "rs%d" % len(jobs)), "plot": True, "draw": 3, "saved": False})
     add("diag", 4, {"cfile": cfile})
     add("diag", 2, {"cfile": cfile, "savestep": 1})
     return jobs
@@ -188,6 +190,14 @@ def run(ctx):
                             break
                     if proof:
                         break
+                mpi_arg = next((d["describe"] for d in bad if any(k in d["describe"] for k in (
+                    "invalid root", "Gatherv: root must give counts", "do not multiply to the communicator size", "buffer is not contiguous"))), None)
+                if mpi_arg and not proof:
+                    # the MPI layer itself refused the call (a root that is not a member of the communicator, counts missing at the
+                    # root, a process grid that does not match the communicator): the collective is malformed whatever the others do
+                    ctx.violation({"kind": "collective-program", "scenario": j["scn"], "what": "malformed-collective-call"},
+                                  "scenario %s: %s" % (sid, mpi_arg[:300]), {"scenario": {k: v for k, v in j.items()}})
+                    continue
                 if proof:
                     r, q, cl, desc = proof
                     ctx.violation({"kind": "collective-program", "scenario": j["scn"], "what": "rank-leaves-before-a-collective-others-issued"},
